@@ -37,6 +37,26 @@ impl Runner {
         }
     }
 
+    #[cfg(feature = "verif-hooks")]
+    fn verif_info(&self, driver: crate::verif::Driver, params: Params) -> crate::verif::RunInfo {
+        crate::verif::RunInfo {
+            driver,
+            task: match self._task {
+                ParTask::Collect => 0,
+                ParTask::EarlyReturn => 1,
+                ParTask::Reduce => 2,
+            },
+            input_len: self.input_len,
+            max_num_threads: self.max_num_threads,
+            chunk_is_exact: matches!(self.chunk_size, ResolvedChunkSize::Exact(_)),
+            chunk: self.chunk_size.inner(),
+            requested_num_threads: match params.num_threads {
+                crate::NumThreads::Auto => None,
+                crate::NumThreads::Max(x) => Some(x.into()),
+            },
+        }
+    }
+
     pub fn do_spawn(&self, num_spawned: usize, has_more: HasMore) -> bool {
         match num_spawned {
             x if x >= self.max_num_threads - 1 => false,
@@ -97,6 +117,11 @@ impl Runner {
         F: Fn(usize) + Sync,
     {
         let runner = Self::new(params, task_type, iter.try_get_len());
+        #[cfg(feature = "verif-hooks")]
+        let _verif_run =
+            crate::verif::run_begin(runner.verif_info(crate::verif::Driver::Run, params));
+        #[cfg(feature = "verif-hooks")]
+        let thread_task = &crate::verif::wrap_task(thread_task);
 
         let mut num_spawned = 0;
 
@@ -104,6 +129,11 @@ impl Runner {
             let mut chunk: usize = runner.chunk_size.inner();
             'lag_period: loop {
                 for _ in 0..LAG_PERIODICITY {
+                    #[cfg(feature = "verif-hooks")]
+                    crate::verif::spawner_point(
+                        crate::verif::SpawnerPoint::BeforeDoSpawn,
+                        num_spawned,
+                    );
                     match runner.do_spawn(num_spawned, iter.has_more()) {
                         false => break 'lag_period,
                         true => {
@@ -113,15 +143,26 @@ impl Runner {
                     }
                 }
 
+                #[cfg(feature = "verif-hooks")]
+                crate::verif::spawner_point(crate::verif::SpawnerPoint::BeforeLag, num_spawned);
                 lag();
+                #[cfg(feature = "verif-hooks")]
+                crate::verif::spawner_point(
+                    crate::verif::SpawnerPoint::BeforeNextChunk,
+                    num_spawned,
+                );
                 match runner.next_chunk_size(num_spawned, iter.has_more()) {
                     None => break 'lag_period,
                     Some(c) => chunk = c,
                 }
             }
 
+            #[cfg(feature = "verif-hooks")]
+            crate::verif::spawner_point(crate::verif::SpawnerPoint::BeforeFinalSpawn, num_spawned);
             s.spawn(move || thread_task(chunk));
             num_spawned += 1;
+            #[cfg(feature = "verif-hooks")]
+            crate::verif::spawner_point(crate::verif::SpawnerPoint::BeforeJoin, num_spawned);
         });
 
         num_spawned
@@ -139,6 +180,11 @@ impl Runner {
         Out: Send + Sync,
     {
         let runner = Self::new(params, task_type, iter.try_get_len());
+        #[cfg(feature = "verif-hooks")]
+        let _verif_run =
+            crate::verif::run_begin(runner.verif_info(crate::verif::Driver::RunMap, params));
+        #[cfg(feature = "verif-hooks")]
+        let thread_task = &crate::verif::wrap_task(thread_task);
 
         let mut num_spawned = 0;
 
@@ -147,6 +193,11 @@ impl Runner {
             let mut chunk: usize = runner.chunk_size.inner();
             'lag_period: loop {
                 for _ in 0..LAG_PERIODICITY {
+                    #[cfg(feature = "verif-hooks")]
+                    crate::verif::spawner_point(
+                        crate::verif::SpawnerPoint::BeforeDoSpawn,
+                        num_spawned,
+                    );
                     match runner.do_spawn(num_spawned, iter.has_more()) {
                         false => break 'lag_period,
                         true => {
@@ -156,15 +207,26 @@ impl Runner {
                     }
                 }
 
+                #[cfg(feature = "verif-hooks")]
+                crate::verif::spawner_point(crate::verif::SpawnerPoint::BeforeLag, num_spawned);
                 lag();
+                #[cfg(feature = "verif-hooks")]
+                crate::verif::spawner_point(
+                    crate::verif::SpawnerPoint::BeforeNextChunk,
+                    num_spawned,
+                );
                 match runner.next_chunk_size(num_spawned, iter.has_more()) {
                     None => break 'lag_period,
                     Some(c) => chunk = c,
                 }
             }
 
+            #[cfg(feature = "verif-hooks")]
+            crate::verif::spawner_point(crate::verif::SpawnerPoint::BeforeFinalSpawn, num_spawned);
             handles.push(s.spawn(move || thread_task(chunk)));
             num_spawned += 1;
+            #[cfg(feature = "verif-hooks")]
+            crate::verif::spawner_point(crate::verif::SpawnerPoint::BeforeJoin, num_spawned);
 
             let mut vec = vec![];
             for x in handles {
@@ -188,6 +250,11 @@ impl Runner {
         R: Fn(T, T) -> T,
     {
         let runner = Self::new(params, task_type, iter.try_get_len());
+        #[cfg(feature = "verif-hooks")]
+        let _verif_run =
+            crate::verif::run_begin(runner.verif_info(crate::verif::Driver::Reduce, params));
+        #[cfg(feature = "verif-hooks")]
+        let thread_task = &crate::verif::wrap_task(thread_task);
 
         std::thread::scope(|s| {
             let mut threads = Vec::with_capacity(runner.max_num_threads);
@@ -195,20 +262,39 @@ impl Runner {
             let mut chunk: usize = runner.chunk_size.inner();
             'lag_period: loop {
                 for _ in 0..LAG_PERIODICITY {
+                    #[cfg(feature = "verif-hooks")]
+                    crate::verif::spawner_point(
+                        crate::verif::SpawnerPoint::BeforeDoSpawn,
+                        threads.len(),
+                    );
                     match runner.do_spawn(threads.len(), iter.has_more()) {
                         false => break 'lag_period,
                         true => threads.push(s.spawn(move || thread_task(chunk))),
                     }
                 }
 
+                #[cfg(feature = "verif-hooks")]
+                crate::verif::spawner_point(crate::verif::SpawnerPoint::BeforeLag, threads.len());
                 lag();
+                #[cfg(feature = "verif-hooks")]
+                crate::verif::spawner_point(
+                    crate::verif::SpawnerPoint::BeforeNextChunk,
+                    threads.len(),
+                );
                 match runner.next_chunk_size(threads.len(), iter.has_more()) {
                     None => break 'lag_period,
                     Some(c) => chunk = c,
                 }
             }
 
+            #[cfg(feature = "verif-hooks")]
+            crate::verif::spawner_point(
+                crate::verif::SpawnerPoint::BeforeFinalSpawn,
+                threads.len(),
+            );
             threads.push(s.spawn(move || thread_task(chunk)));
+            #[cfg(feature = "verif-hooks")]
+            crate::verif::spawner_point(crate::verif::SpawnerPoint::BeforeJoin, threads.len());
 
             let num_threads = threads.len();
             let result = threads
@@ -222,6 +308,11 @@ impl Runner {
 }
 
 fn lag() {
+    #[cfg(feature = "verif-hooks")]
+    if crate::verif::skip_lag() {
+        return;
+    }
+
     fn fibonacci(n: i32) -> i32 {
         let mut a = 0;
         let mut b = 1;
